@@ -13,7 +13,17 @@ fn rt<T: serde::Serialize + serde::de::DeserializeOwned + PartialEq>(x: &T) -> V
         Err(e) => return json!({"tag": "de_failed", "msg": e.to_string(), "json": js}),
     };
     let again = serde_json::to_string(&back).unwrap_or_default();
-    json!({"tag": "ok", "eq": &back == x, "same_text": again == js, "json": js})
+    // the same through a positional format (no field names, declaration order)
+    let toks = match crate::poswire::to_tokens(x) {
+        Ok(t) => t,
+        Err(e) => return json!({"tag": "ser_failed", "msg": format!("positional: {}", e)}),
+    };
+    let pback: T = match crate::poswire::from_tokens(&toks) {
+        Ok(b) => b,
+        Err(e) => return json!({"tag": "de_failed", "msg": format!("positional: {}", e), "json": js}),
+    };
+    let ptoks = crate::poswire::to_tokens(&pback).unwrap_or_default();
+    json!({"tag": "ok", "eq": &back == x && &pback == x, "same_text": again == js && ptoks == toks, "json": js})
 }
 
 pub fn run(case: &Value) -> Vec<Value> {
